@@ -687,7 +687,7 @@ static void parse_ident(struct iauth_request *req, char ident[])
         iauth_send_opers("ircd sent garbage: -1 u ...");
         return;
     }
-    if (ident) {
+    if (ident && ident[0] != '\0') {
         strncpy(req->auth_username, ident, USERLEN);
         BITSET_SET(req->flags, IAUTH_GOT_IDENT);
     } else if (req->cli_username[0] != '\0')
